@@ -19,6 +19,7 @@ func init() {
 			c.run("C13-R3", "ORDER: status handshaking before the worker starts and before the trigger is forwarded", c13R3)
 			c.run("C13-R4", "WHO-WRITES: the three writers of the relay status", c13R4)
 			c.run("C13-R5", "MUST-PASS: each chunk goes exactly somewhere, on the right side", c13R5)
+			c.run("C13-R6", "LAUNCH: relay pumps, queue consumers and the handshake are started with go", c13Launch)
 			c.run("C13-R6", "FRESH: pumps read into a fresh buffer every iteration", c13R6)
 			c.run("C13-R7", "PAIR: every exit of the handshake worker flushes", c13R7)
 			c.run("C13-S1", "shared with C03-R2/R3: the handshake line readers consume exactly the bytes of the line they return, so the flush hands on the rest", func(c *Ctx) { c03R2(c); c03R3(c) })
